@@ -12,8 +12,11 @@ pub mod c07;
 pub mod c08;
 pub mod c11;
 pub mod c12;
+pub mod c13;
+pub mod c14;
 pub mod c15;
 pub mod c16;
+pub mod c17;
 pub mod c18;
 
 pub fn threads() -> usize {
@@ -35,8 +38,11 @@ pub fn dispatch(id: &str, tier: Tier, replay: Option<Value>, _rest: &[String]) -
         "C08" => c08::run(tier, replay),
         "C11" => c11::run(tier, replay),
         "C12" => c12::run(tier, replay),
+        "C13" => c13::run(tier, replay),
+        "C14" => c14::run(tier, replay),
         "C15" => c15::run(tier, replay),
         "C16" => c16::run(tier, replay),
+        "C17" => c17::run(tier, replay),
         "C18" => c18::run(tier, replay),
         _ => {
             eprintln!("unknown property {id}");
